@@ -185,4 +185,87 @@ def trigF04b (rows : List Row) (impl : List Level) (ep : Bool) (spec : Option Tr
     | .ok t => pinnedLax rows (gramOf impl ep (syms rows)) t
     | .error _ => false
 
+/-! #### accepted trees never chain two operators of one guard class -/
+
+/-- a comparison / range operator applied to an unparenthesised left operand of its own guard class -/
+def sameClassChain (cls : Nat → Nat) : Tree → Bool
+  | .bin o (.bin o' _ _) _ => cls o != 0 && cls o == cls o'
+  | _ => false
+
+/-- every operator of a guard class denies every operator of its class -/
+def GuardsComplete (T : Tbl) (cls : Nat → Nat) : Prop :=
+  ∀ o r deny rhs, T.led o = .infix r deny rhs → cls o ≠ 0 → ∀ o', cls o' = cls o → deny.contains (2 * o' + 1) = true
+
+theorem wfr_no_chain (T : Tbl) (cls : Nat → Nat) (hg : GuardsComplete T cls) :
+    ∀ t, WFr T t → anyNode (sameClassChain cls) t = false := by
+  intro t
+  induction t with
+  | nil => intro h; simp [WFr] at h
+  | atom => intro _; simp [anyNode, sameClassChain]
+  | group g c e ih =>
+    intro h
+    cases hn : T.nud g <;> simp only [WFr, hn] at h
+    rcases h.2 with ⟨rfl, -⟩ | h2
+    · simp [anyNode, sameClassChain]
+    · simp [anyNode, sameClassChain, ih h2]
+  | pre p x ih =>
+    intro h
+    cases hn : T.nud p <;> simp only [WFr, hn] at h
+    simp [anyNode, sameClassChain, ih h.1]
+  | bin o l r ihl ihr =>
+    intro h
+    cases hl : T.led o <;> simp only [WFr, hl] at h
+    rename_i rb deny rhs
+    obtain ⟨hwl, hwr, -, -, hdeny, -⟩ := h
+    have h0 : sameClassChain cls (.bin o l r) = false := by
+      cases l with
+      | bin o' l' r' =>
+        simp only [sameClassChain, Bool.and_eq_false_iff, bne_eq_false_iff_eq, beq_eq_false_iff_ne]
+        by_cases hc0 : cls o = 0
+        · left; exact hc0
+        · right
+          intro heq
+          have := hg o rb deny rhs hl hc0 o' heq.symm
+          simp only [Tree.head] at hdeny
+          rw [this] at hdeny
+          exact absurd hdeny (by simp)
+      | _ => rfl
+    simp [anyNode, h0, ihl hwl, ihr hwr]
+  | typed o l n ih =>
+    intro h
+    cases hl : T.led o <;> simp only [WFr, hl] at h
+    simp [anyNode, sameClassChain, ih h.1]
+  | post o c l e ihl ihe =>
+    intro h
+    cases hl : T.led o <;> simp only [WFr, hl] at h
+    obtain ⟨-, hwl, -, -, he⟩ := h
+    rcases he with ⟨rfl, -⟩ | he
+    · simp [anyNode, sameClassChain, ihl hwl]
+    · simp [anyNode, sameClassChain, ihl hwl, ihe he]
+
+theorem guardsComplete_of_check (rows : List Row) (h : guardsB rows = true) :
+    GuardsComplete (tableOf rows) (fun o => guardClass (symOf rows o)) := by
+  intro o r deny rhs hled hc o' hcls
+  simp only [guardsB, List.all_eq_true, List.mem_range] at h
+  have ho : o < rows.length := by
+    by_cases ho : o < rows.length
+    · exact ho
+    · have : rows[o]? = none := List.getElem?_eq_none (by omega)
+      simp [tableOf, this] at hled
+  have ho' : o' < rows.length := by
+    by_cases ho' : o' < rows.length
+    · exact ho'
+    · have : rows[o']? = none := List.getElem?_eq_none (by omega)
+      have h1 : guardClass (symOf rows o') = 0 := by simp [symOf, this, guardClass]
+      simp only at hcls
+      rw [h1] at hcls
+      exact absurd hcls.symm hc
+  have := h o ho
+  simp only [hled, Bool.or_eq_true, beq_iff_eq, List.all_eq_true, List.mem_range, bne_iff_ne, ne_eq] at this
+  rcases this with h0 | hall
+  · exact absurd h0 hc
+  · rcases hall o' ho' with h1 | h1
+    · exact absurd hcls h1
+    · exact h1
+
 end EPV.Pratt
